@@ -378,7 +378,9 @@ C06_Drained == E.ev = "ret" /\ E.op \in {"PauseAndWait", "Stop", "WaitAndStop"} 
 \* at rest no barrier caller sleeps although nothing is in flight (and, on a running worker, nothing is pending)
 C06_Returns == Quiescent => \A c \in Clients :
                   pend[c].op \in BarrierOps /\ (\E i \in DOMAIN E.blocked : E.blocked[i] = c)
-                  => ~(E.processing = 0 /\ (E.pending = 0 \/ (pend[c].solo /\ pend[c].op \in {"PauseAndWait", "Stop", "Restart"})))
+                  => ~(E.processing = 0 /\ (E.pending = 0 \/ (pend[c].solo /\ pend[c].op \in {"PauseAndWait", "Stop", "Restart"})
+                                              \* on a worker that is paused or stopped at rest a barrier waits for the jobs in flight only
+                                              \/ E.wss \in {"Paused", "Stopped"}))
 
 ---- \* C07 own outcome, panics contained
 ExpRes(j) == IF exits[j] = 0 \/ hdr.wk = "plain" THEN <<0, "", 0>>      \* a plain worker's handle carries no outcome
